@@ -6,6 +6,70 @@ from vlib import core, ecdsadrv, ecdsarun, toy
 INV = ["GroupFacts", "SignVerifies", "RSZeroExact"]
 
 
+def production(ctx, quick, rnd):
+    """17 production curves: the e actually used (solved from the signature equation) must be the leftmost bits of the digest
+    (decided by TLC on bytes), for digest lengths 1 .. 2*baselen+3 and bit patterns; the s-equation with a quotient witness."""
+    import hashlib
+    from vlib.core import b2l, n2l
+    ecdsa = core.import_ecdsa()
+    from ecdsa import curves, SigningKey
+    events, meta = [], []
+    for c in list(curves.curves)[:17]:
+        n = c.order
+        bl = c.baselen
+        lens = sorted({1, 2, bl - 1, bl, bl + 1, bl + 2, 2 * bl, 2 * bl + 3, 20, 32, 48, 64, 66, 67}) if not quick else \
+            sorted({1, bl - 1, bl, bl + 1, 2 * bl + 3, 64, 66})
+        for d in ([1, n - 1, rnd.randrange(1, n)] if not quick else [rnd.randrange(1, n)]):
+            sk = SigningKey.from_secret_exponent(d, c, hashfunc=hashlib.sha256)
+            for ln in lens:
+                if ln < 1:
+                    continue
+                pats = [b"\xff" * ln, b"\x00" * (ln - 1) + b"\x01", b"\x80" + b"\x00" * (ln - 1), b"\x7f" + b"\xff" * (ln - 1),
+                        bytes(rnd.randrange(256) for _ in range(ln)), (b"\x00" + bytes(rnd.randrange(256) for _ in range(ln)))[:ln]]
+                if ln >= bl:
+                    pats.append((n.to_bytes(bl, "big") + b"\xaa" * ln)[:ln])
+                for dg in (pats if not quick else pats[:2] + pats[4:6]):
+                    k = rnd.randrange(1, n)
+                    for entry in ("sign_digest", "sign"):
+                        try:
+                            if entry == "sign_digest":
+                                r, s = sk.sign_digest(dg, k=k, sigencode=lambda a, b_, o: (a, b_), allow_truncate=True)
+                            else:
+                                r, s = sk.sign(dg, k=k, hashfunc=ecdsadrv.IdHash, sigencode=lambda a, b_, o: (a, b_), allow_truncate=True)
+                        except BaseException as e:  # noqa
+                            if type(e).__name__ != "RSZeroError":
+                                ctx.violation("%s raised %s on %s for a %d-byte digest" % (entry, type(e).__name__, c.name, ln),
+                                              {"curve": c.name, "digest": dg.hex()})
+                            continue
+                        eobs = (s * k - r * d) % n
+                        events.append({"op": "e", "n": n2l(n), "digest": b2l(dg), "eobs": n2l(eobs)})
+                        meta.append((c.name, entry, d, k, dg.hex(), r, s))
+                        events.append({"op": "range", "n": n2l(n), "r": n2l(r), "s": n2l(s)})
+                        meta.append((c.name, entry, d, k, dg.hex(), r, s))
+                        q = (s * k - eobs - r * d) // n
+                        events.append({"op": "s", "n": n2l(n), "s": n2l(s), "k": n2l(k), "e": n2l(eobs), "r": n2l(r), "d": n2l(d), "q": n2l(max(q, 0)), "qneg": n2l(max(-q, 0))})
+                        meta.append((c.name, entry, d, k, dg.hex(), r, s))
+                        ctx.nontrivial.add((c.name, ln, dg[:4]))
+            # truncation disabled: a digest longer than the order is refused, a short one is used whole
+            from ecdsa.keys import BadDigestError
+            try:
+                sk.sign_digest(b"\x01" * (bl + 1), k=5, allow_truncate=False)
+                ctx.violation("sign_digest accepted a digest longer than the order with truncation disabled on %s" % c.name, {"curve": c.name})
+            except BadDigestError:
+                pass
+            except BaseException as e:  # noqa
+                ctx.violation("sign_digest raised %s instead of BadDigestError on %s" % (type(e).__name__, c.name), {"curve": c.name})
+    ctx.evaluations += len(events)
+    bad, st = core.validate_traces(ctx.workdir, "TruncTrace", "INIT Init\nNEXT Next\nCHECK_DEADLOCK FALSE\n", events, per_shard_min=200)
+    ctx.add_stats(st)
+    ctx.traces += len(events)
+    for ix, clause in bad:
+        m = meta[ix]
+        ctx.violation("%s: %s %s d=%d k=%d digest=%s -> r=%d s=%d" % (clause[0][1] if clause else clause, m[0], m[1], m[2], m[3], m[4], m[5], m[6]),
+                      {"curve": m[0], "entry": m[1], "d": m[2], "k": m[3], "digest": m[4], "r": m[5], "s": m[6]})
+    ctx.extra["production_signatures_checked"] = len(events) // 3
+
+
 def run(ctx):
     core.import_ecdsa()
     quick = ctx.tier == "quick"
@@ -40,10 +104,13 @@ def run(ctx):
         ecdsarun.validate(ctx, cid, events, ["C03"], ecdsarun.describe_sign)
         if events:
             ctx.sample({"curve": cid, "event": events[len(events) // 2]})
+    production(ctx, quick, rnd)
     ctx.rule = ("events = (d, k, digest, allow_truncate) on toy curves, each run through sign_digest with 3 plain + 3 low-S "
                 "encoders, sign() with an identity hash, sign_number, and the deterministic entry points (k recorded); "
                 "T23: every d, k in [1, n-1]; other curves structured/seeded; TLC recomputes Sign(d, k, leftmost-bits(digest)) "
-                "and dG from ECDSA.tla; non-trivial = distinct (curve, d, k, digest, allow)")
+                "and dG from ECDSA.tla; production: on the 17 curves the e actually used (solved from s k = e + r d) must equal the "
+                "leftmost-bits value computed by TLC on bytes for digests of 1..2*baselen+3 bytes, and the s-equation holds with a "
+                "quotient witness; non-trivial = distinct (curve, d, k, digest, allow)")
     ctx.exhaustive = False
     ctx.assumptions += ["toy curves execute the same library code as production curves (pure-Python integers)",
                         "with truncation disabled and a digest that fits in bytes but has more bits than n the property is "
